@@ -418,6 +418,18 @@ def i_duplicate_functions(c):
         lines += [f"def {h1}(q):", f"    return [q, {k1}]", "", "", f"def {h2}(w):", f"    return [w, {k2}]", "", "", f"print({h1}(0), {h2}(0))"]
     if r.random() < 0.3:
         lines += [f"{g} = {f}", f"print({g}(2, 2))"]
+    if r.random() < 0.4:  # recursive duplicates whose names differ in length; duplicates that call one another, on their last line
+        short, long_ = c.name("rec"), c.name("recursive_twin_with_a_longer_name")
+        if r.random() < 0.5:
+            short, long_ = long_, short
+        form = r.randrange(3)
+        if form == 0:
+            mk = lambda n: [f"def {n}(n):", f"    return {n}(n - 1) * n if n else 1"]  # noqa: E731
+        elif form == 1:
+            mk = lambda n: [f"def {n}(n):", "    if n <= 0:", "        return 0", f"    return n + {n}(n - 1)"]  # noqa: E731
+        else:
+            mk = lambda n: [f"def {n}(n, acc=()):", f"    return acc if not n else {n}(n - 1, acc + (n,))"]  # noqa: E731
+        lines += mk(short) + ["", ""] + mk(long_) + ["", "", f"print({short}(3), {long_}(4))", f"print('after the twins', {long_}(2))"]
     return lines
 
 
